@@ -27,6 +27,9 @@ type SpecEnv struct {
 	pkg      *types.Package
 	inOld    bool
 	macroDepth int
+	noLocals bool
+	outermost bool
+	locals   map[string]Val
 }
 
 func (vc *VC) specEnv(fr *frame, st *state, at *ssa.BasicBlock) *SpecEnv {
@@ -201,6 +204,33 @@ func (e *SpecEnv) eval(x ast.Expr) (Val, error) {
 	case *ast.Ident:
 		return e.evalIdent(t)
 	case *ast.UnaryExpr:
+		if t.Op == token.AND {
+			// address of a field: &p.f
+			if sel, ok := t.X.(*ast.SelectorExpr); ok {
+				base, err := e.eval(sel.X)
+				if err != nil {
+					return Val{}, err
+				}
+				if base.Typ == nil || base.Loc == nil {
+					return Val{}, fmt.Errorf("address of %s: base is not a pointer", exprString(t.X))
+				}
+				obj, index, _ := types.LookupFieldOrMethod(base.Typ, true, e.pkg, sel.Sel.Name)
+				if obj == nil {
+					obj, index = lookupFieldByName(base.Typ, sel.Sel.Name)
+				}
+				fv, isField := obj.(*types.Var)
+				if !isField || len(index) != 1 {
+					return Val{}, fmt.Errorf("address of %s: unsupported", exprString(t.X))
+				}
+				l := vc.extend(base.Loc, index[0])
+				r := Val{Typ: types.NewPointer(fv.Type()), Loc: l}
+				if len(l.Path) == 0 && l.Kind == LCell {
+					r.T = l.Ref
+				}
+				return r, nil
+			}
+			return Val{}, fmt.Errorf("unsupported address-of %s", exprString(t.X))
+		}
 		v, err := e.eval(t.X)
 		if err != nil {
 			return Val{}, err
@@ -211,7 +241,7 @@ func (e *SpecEnv) eval(x ast.Expr) (Val, error) {
 		case token.SUB:
 			return Val{T: "(- " + v.T + ")", Typ: v.Typ}, nil
 		case token.AND:
-			return v, nil // &x on a location-valued expression is the location itself
+			return v, nil // handled below (address-of needs the location, not the loaded value)
 		}
 		return Val{}, fmt.Errorf("unsupported unary %s", t.Op)
 	case *ast.StarExpr:
@@ -302,13 +332,17 @@ func (e *SpecEnv) evalIdent(id *ast.Ident) (Val, error) {
 	case "nil":
 		return Val{T: "nil"}, nil
 	}
-	if id.Name == "idx" && e.at != nil && e.fr != nil {
-		// number of completed iterations of the index loop whose header is e.at
-		for _, ins := range e.at.Instrs {
-			if phi, ok := ins.(*ssa.Phi); ok && phi.Comment == "rangeindex" {
-				return Val{T: "(+ " + e.fr.vals[phi].T + " 1)", Typ: types.Typ[types.Int]}, nil
+	if id.Name == "idx" {
+		// at a loop header: number of completed iterations; inside the body (postconditions of a return
+		// inside the loop): the current index; outside any index loop: -1
+		if e.at != nil && e.fr != nil {
+			for _, ins := range e.at.Instrs {
+				if phi, ok := ins.(*ssa.Phi); ok && phi.Comment == "rangeindex" {
+					return Val{T: "(+ " + e.fr.vals[phi].T + " 1)", Typ: types.Typ[types.Int]}, nil
+				}
 			}
 		}
+		return Val{T: "(- 1)", Typ: types.Typ[types.Int]}, nil
 	}
 	vars := e.vars
 	if e.inOld && e.oldVars != nil {
@@ -322,7 +356,7 @@ func (e *SpecEnv) evalIdent(id *ast.Ident) (Val, error) {
 	if d := e.lookupDefine(id.Name); d != nil && len(d.Params) == 0 {
 		return e.expand(d, nil)
 	}
-	if e.fr != nil {
+	if e.fr != nil && !e.noLocals {
 		if v, ok := e.lookupLocal(id.Name); ok {
 			return v, nil
 		}
@@ -386,8 +420,29 @@ func (e *SpecEnv) lookupLocal(name string) (Val, bool) {
 		if at.IsValid() && at < token.Pos(1<<40) && !(o.Parent().Pos() <= at && at <= o.Parent().End()) {
 			continue
 		}
+		if e.outermost {
+			if obj == nil || o.Parent().Pos() < obj.Parent().Pos() {
+				obj = o
+			}
+			continue
+		}
 		if obj == nil || o.Parent().Pos() > obj.Parent().Pos() || (o.Parent().Pos() == obj.Parent().Pos() && o.Pos() > obj.Pos() && o.Pos() <= at) {
 			obj = o
+		}
+	}
+	// a variable that lives in memory (address taken, captured by a closure): read its cell now
+	for _, b := range fr.fn.Blocks {
+		for _, ins := range b.Instrs {
+			al, ok := ins.(*ssa.Alloc)
+			if !ok || al.Comment != name {
+				continue
+			}
+			if obj != nil && al.Pos() != obj.Pos() {
+				continue
+			}
+			if av, defined := fr.vals[al]; defined && av.Loc != nil {
+				return vc.mkVal(vc.load(e.curState(), av.Loc), vc.locType(av.Loc)), true
+			}
 		}
 	}
 	var best *varDef
@@ -533,8 +588,7 @@ func (e *SpecEnv) fieldOf(v Val, idx int) (Val, error) {
 		if v.Loc == nil {
 			return Val{}, fmt.Errorf("pointer without location")
 		}
-		l := *v.Loc
-		l.Path = append(append([]int{}, v.Loc.Path...), idx)
+		l := *vc.extend(v.Loc, idx)
 		ft := p.Elem().Underlying().(*types.Struct).Field(idx).Type()
 		term := vc.load(e.curState(), &l)
 		return e.loaded(term, ft), nil
@@ -688,6 +742,24 @@ func (e *SpecEnv) evalCall(t *ast.CallExpr) (Val, error) {
 			ne := *e
 			ne.inOld = true
 			return ne.eval(t.Args[0])
+		case "entry":
+			// value of the expression in the state in which the enclosing loop was entered
+			if e.fr == nil || e.at == nil || e.fr.loopEntry[e.at] == nil {
+				return Val{}, fmt.Errorf("entry() outside a loop invariant")
+			}
+			ne := *e
+			ne.st = &state{reach: e.reach, heap: e.fr.loopEntry[e.at]}
+			return ne.eval(t.Args[0])
+		case "outer":
+			// the outermost local variable of that name (for names shadowed inside the loop body)
+			if aid, ok := t.Args[0].(*ast.Ident); ok && e.fr != nil {
+				ne := *e
+				ne.outermost = true
+				if v, ok := ne.lookupLocal(aid.Name); ok {
+					return v, nil
+				}
+			}
+			return Val{}, fmt.Errorf("outer(): no such local variable")
 		case "is", "as", "zero", "isnew":
 			// second (or only) argument is a type
 		default:
@@ -976,9 +1048,7 @@ general:
 				ft := stt.Field(i).Type()
 				if _, fieldIsPtr := ft.Underlying().(*types.Pointer); !fieldIsPtr {
 					if _, fieldIsStruct := ft.Underlying().(*types.Struct); fieldIsStruct {
-						l := *cur.Loc
-						l.Path = append(append([]int{}, cur.Loc.Path...), i)
-						cur = Val{Typ: types.NewPointer(ft), Loc: &l}
+						cur = Val{Typ: types.NewPointer(ft), Loc: vc.extend(cur.Loc, i)}
 						continue
 					}
 				}
@@ -1097,7 +1167,7 @@ func (e *SpecEnv) callFunc(sfn *ssa.Function, fn *types.Func, args []Val) (Val, 
 			return v, nil
 		}
 		var res Val
-		if c.Functional {
+		if c.Functional || c.Deterministic {
 			res = vc.ufApply(st, key, args, rt, "spec:"+key)
 		} else {
 			res = vc.freshResult(st, rt, "spec:"+key)
@@ -1134,7 +1204,34 @@ func (e *SpecEnv) callFunc(sfn *ssa.Function, fn *types.Func, args []Val) (Val, 
 	}
 	if c := vc.eng.contractFor(key); c != nil {
 		vc.assumed["assumed contract: "+key] = true
-		return vc.ufApply(st, key, args, rt, "spec"), nil
+		res := vc.ufApply(st, key, args, rt, "spec")
+		// instantiate the assumed postconditions for this application (not for applications that occur
+		// inside those postconditions themselves)
+		if vc.specInst == 0 && len(c.Ensures) > 0 && len(c.Modifies) == 0 && !c.ModAll {
+			vc.specInst++
+			sub := &SpecEnv{vc: vc, vars: map[string]Val{}, st: st, old: st.heap, contract: c, reach: e.reach, pkg: vc.eng.specPkg(sfn)}
+			names := c.Params
+			if len(sfn.Params) > 0 {
+				names = nil
+				for _, p := range sfn.Params {
+					names = append(names, p.Name())
+				}
+			}
+			for i, n := range names {
+				if i < len(args) && n != "_" {
+					sub.vars[n] = args[i]
+				}
+			}
+			sub.oldVars = sub.vars
+			bindResults(sub.vars, res, rt, sig)
+			for _, en := range c.Ensures {
+				if t, err := sub.evalBool(en.Expr); err == nil {
+					vc.assume("true", t)
+				}
+			}
+			vc.specInst--
+		}
+		return res, nil
 	}
 	if sfn.Blocks != nil && (sfn.Synthetic != "" || isTrivialGetter(sfn)) {
 		// small package-local helper without contract: execute it symbolically (read-only)
@@ -1351,9 +1448,7 @@ func (e *SpecEnv) modLocs(x ast.Expr) ([]modLoc, error) {
 		if cur.Loc == nil {
 			return nil, fmt.Errorf("modifies %s: base is not a location", exprString(x))
 		}
-		l := *cur.Loc
-		l.Path = append(append([]int{}, cur.Loc.Path...), index[len(index)-1])
-		return []modLoc{cellLoc(vc, &l)}, nil
+		return []modLoc{cellLoc(vc, vc.extend(cur.Loc, index[len(index)-1]))}, nil
 	}
 	return nil, fmt.Errorf("unsupported modifies expression %s", exprString(x))
 }
